@@ -15,6 +15,22 @@ pub open spec fn ty_code(d: IndexData) -> u32 {
         IndexData::I18NString(_) => 9,
     }
 }
+/// the item count an entry's data amounts to (rpm: 0 for NULL, 1 for STRING, the number of elements otherwise;
+/// as a 32-bit value like the count field)
+pub open spec fn data_count(d: IndexData) -> u32 {
+    match d {
+        IndexData::Null => 0,
+        IndexData::StringTag(_) => 1,
+        IndexData::Char(v) => v@.len() as u32,
+        IndexData::Int8(v) => v@.len() as u32,
+        IndexData::Int16(v) => v@.len() as u32,
+        IndexData::Int32(v) => v@.len() as u32,
+        IndexData::Int64(v) => v@.len() as u32,
+        IndexData::Bin(v) => v@.len() as u32,
+        IndexData::StringArray(v) => v@.len() as u32,
+        IndexData::I18NString(v) => v@.len() as u32,
+    }
+}
 pub open spec fn ser_entry_of<T: Tag>(e: IndexEntry<T>) -> Seq<u8> {
     ser_entry(e.tag, ty_code(e.data), e.offset, e.num_items)
 }
